@@ -55,11 +55,59 @@ def checkFront (rs : List (List MOp)) : Json :=
         let fuel := 2 * items.length + g.vs.length + 8
         let budget := (items.length + 4) * (g.vs.length + 4) + 64
         ((BehD.verdictJson rm.stepAll g.step fuel budget 0 0).setObjVal! "r" (jNat k)).setObjVal! "guard"
-          (.bool (noLabelAfterCtx items))
+          (.bool (ctxGuard items))
     Json.mkObj [("wf", .bool wf), ("resolver", .arr t3.toArray), ("graph", .arr t4.toArray)]
+
+def itemOf (j : Json) : R Item := do
+  match (← asStr (← fld j "k")) with
+  | "op" => pure (.op (← BehD.mopOf j))
+  | "label" => pure (.label (← asNat (← fld j "id")))
+  | "ljump" => pure (.ljump (← BehD.mopOf j) (← asNat (← fld j "label")) (← asBool (← fld j "call")))
+  | k => throw s!"bad item {k}"
+
+def vopOf (j : Json) : R VOp := do
+  match (← asStr (← fld j "k")) with
+  | "foreign" => pure (.foreign (← asNat (← fld j "id")))
+  | _ => pure (.item (← itemOf j))
+
+def lblOf (j : Json) : R Lbl := do
+  match (← asArr j) with
+  | [o, i, r, f] => pure ⟨← asInt o, ← asNat i, ← asNat r, ← asBool f⟩
+  | _ => throw "bad label"
+
+def graphOf (j : Json) : R Graph := do
+  let vs ← (← asArr (← fld j "vs")).mapM vopOf
+  let es ← (← asArr (← fld j "es")).mapM fun e => do
+    match (← asArr e) with
+    | [s, d, l, lp] => pure (⟨← asNat s, ← asNat d, ← asNat l, ← asBool lp⟩ : Edge)
+    | _ => throw "bad edge"
+  pure ⟨vs, es⟩
+
+/-- validation of the REAL front-phase output (labels, interleaved routines, base graphs dumped from the running
+Python code) against the input with the proven checker -/
+def validateFront (rs : List (List MOp)) (labels : List Lbl) (rtns : List (List Item)) (graphs : List Graph) : Json :=
+  let m : Machine := ⟨flatten rs⟩
+  let lm : LMachine := ⟨flattenItems rtns⟩
+  let fuel := m.ops.size + lm.items.size + 8
+  let budget := (m.ops.size + 4) * (lm.items.size + 4) + 64
+  let t3 := (List.range rs.length).map fun k =>
+    (BehD.verdictJson m.step lm.step fuel budget (m.entry k) (lm.entry k)).setObjVal! "r" (jNat k)
+  let t4 := (rtns.zip graphs).zipIdx.map fun ((items, g), k) =>
+    let rm : RMachine := ⟨labels, k, items⟩
+    let fuel := 2 * items.length + g.vs.length + 8
+    let budget := (items.length + 4) * (g.vs.length + 4) + 64
+    ((BehD.verdictJson rm.stepAll g.step fuel budget 0 0).setObjVal! "r" (jNat k)).setObjVal! "guard"
+      (.bool (ctxGuard items))
+  Json.mkObj [("wf", .bool (wfSet rs)), ("resolver", .arr t3.toArray), ("graph", .arr t4.toArray)]
 
 def handle (op : String) (j : Json) : R Json := do
   match op with
+  | "decomp.validate" =>
+    let rs ← (← asArr (← fld j "rs")).mapM fun r => do (← asArr r).mapM BehD.mopOf
+    let labels ← (← asArr (← fld j "labels")).mapM lblOf
+    let rtns ← (← asArr (← fld j "rtns")).mapM fun r => do (← asArr r).mapM itemOf
+    let graphs ← (← asArr (← fld j "graphs")).mapM graphOf
+    pure (validateFront rs labels rtns graphs)
   | "decomp.check" =>
     let rs ← (← asArr (← fld j "rs")).mapM fun r => do (← asArr r).mapM BehD.mopOf
     pure (checkFront rs)
